@@ -60,7 +60,7 @@ def rdl (s : St) (ws : List String) (at2 : Nat) : String :=
         | some w => if w > at2 + 2000 then " rdl=unarmed" else " rdl=ok"
         | none => " rdl=ok"
       else
-        let x := v.toNat!
+        let x := v.toNat?.getD 0
         match a with
         | some w => if w ≤ x + 2000 then " rdl=ok" else " rdl=early"
         | none => if x > at2 + 2000 then " rdl=stale" else " rdl=ok"
